@@ -133,7 +133,8 @@ impl Bmi2BitOps {
     /// for 5-10x select speedup on BMI2-capable CPUs.
     #[cfg(target_arch = "x86_64")]
     pub fn select1_ultra_fast(word: u64, rank: usize) -> Option<usize> {
-        if rank == 0 || word == 0 {
+        // a 64-bit word has at most 64 ones (and `1 << (rank - 1)` must not overflow)
+        if rank == 0 || rank > 64 || word == 0 {
             return None;
         }
         
